@@ -385,6 +385,10 @@ fn map_main(args: &[String]) {
   let only = if args[1] == "map-case" { Some(get("--index", 0)) } else { None };
   let range = match only { Some(i) => i..i + 1, None => 0..cases };
   let mut found = 0usize; let mut ran = 0usize;
+  if only.is_none() || args.iter().any(|a| a == "--twins") {
+    ran += 1;
+    if let Err(f) = mapmodel::twins() { println!("{{\"violation\":true,\"engine\":\"map\",\"property\":\"{}\",\"obligation\":\"{}\",\"rerun\":\"map-case --twins --index 0 --len 0\",\"what\":{:?},\"case\":\"two block-local key types named K\"}}", f.prop, f.ob, f.what); found += 1; }
+  }
   for i in range {
     let mut rng = mapmodel::Rng((0x9E3779B97F4A7C15u64 ^ (seed as u64).wrapping_mul(0xD1342543DE82EF95) ^ (i as u64).wrapping_mul(0xA24BAED4963EE407)) | 1);
     let ops = mapmodel::gen(&mut rng, len); ran += 1;
